@@ -136,6 +136,10 @@ func runC06(c *core.Ctx) {
 				continue
 			}
 			c.Probe("failed-after-connected")
+			o.staleIDs(ag, map[*rig.AgentH]*simnet.Host{d.A: d.HA, d.B: d.HB}[ag], "failed")
+			if c.Failed() {
+				return
+			}
 			// a late trickled candidate reaches the failed agent; the Restart that follows ends that generation
 			late, err := ice.NewCandidateHost(&ice.CandidateHostConfig{Network: "udp", Address: "10.0.9.99", Port: 9999, Component: 1})
 			if err != nil {
@@ -170,6 +174,10 @@ func runC06(c *core.Ctx) {
 			ag.Ufrag, ag.Pwd = uf, pw
 			d.S.Settle()
 			o.idKey[ag.Name] = map[uint64]string{}
+			o.staleIDs(ag, map[*rig.AgentH]*simnet.Host{d.A: d.HA, d.B: d.HB}[ag], "restart")
+			if c.Failed() {
+				return
+			}
 			s := rig.TakeSnap(ag)
 			if len(s.Pairs) != 0 || len(s.Locals) != 0 || len(s.Remotes) != 0 || s.Selected != "" {
 				c.Failf("C06/restart-residue", "%s after Restart: %d pairs, %d local, %d remote candidates, selected=%q", ag.Name, len(s.Pairs), len(s.Locals), len(s.Remotes), s.Selected)
@@ -192,6 +200,7 @@ func runC06(c *core.Ctx) {
 }
 
 type c06Oracle struct {
+	probed    map[string][]uint64 // pair ids WriteToPair was used with, per agent, in the current generation
 	c         *core.Ctx
 	d         *rig.Duo
 	idKey     map[string]map[uint64]string // per agent: pair id -> transport-address pair (this generation)
@@ -465,4 +474,47 @@ func (o *c06Oracle) writeToPairProbe() {
 		c.Failf("C06/write-to-pair-no-datagram", "%s WriteToPair(%d) reported success but nothing left the agent", ag.Name, p.ID)
 	}
 	c.Probe("write-to-pair")
+	if o.probed == nil {
+		o.probed = map[string][]uint64{}
+	}
+	o.probed[ag.Name] = append(o.probed[ag.Name], p.ID)
+	// the pair's own send counters follow the write (the id addresses the listed pair, not a stale copy of it)
+	for _, q := range rig.TakeSnap(ag).Pairs {
+		if q.ID == p.ID && q.PktsSent != p.PktsSent+1 {
+			c.Failf("C06/pair-id-addresses-stale-pair", "%s WriteToPair(%d) sent a datagram on %s but the listed pair's PacketsSent went %d -> %d", ag.Name, p.ID, p.Key(), p.PktsSent, q.PktsSent)
+		}
+	}
+}
+
+// staleIDs: pair ids written to in a generation that has ended (Restart, Failed) address nothing any more.
+func (o *c06Oracle) staleIDs(ag *rig.AgentH, h *simnet.Host, why string) {
+	c, d := o.c, o.d
+	if ag.Conn == nil {
+		return
+	}
+	for _, id := range o.probed[ag.Name] {
+		before := map[uint64]bool{}
+		for _, q := range d.W.InFlight() {
+			before[q.ID] = true
+		}
+		payload := []byte(fmt.Sprintf("stale-%d", id))
+		n, err := ag.Conn.WriteToPair(id, payload)
+		d.S.Settle()
+		emitted := false
+		ids := hostSockIDs(d.W, h)
+		for _, q := range d.W.InFlight() {
+			if !before[q.ID] && ids[q.SockID] && string(q.Payload) == string(payload) {
+				emitted = true
+				d.W.Drop(q)
+			}
+		}
+		if err == nil || emitted {
+			c.Failf("C06/pair-id-survives-"+why, "%s WriteToPair(%d) after %s: n=%d err=%v datagram emitted=%v (the pair of the ended generation must be gone)", ag.Name, id, why, n, err, emitted)
+			return
+		}
+		c.Probe("stale-pair-id-refused")
+	}
+	if o.probed != nil {
+		o.probed[ag.Name] = nil
+	}
 }
